@@ -35,6 +35,7 @@ type SrvScenario struct {
 	Gates     []string   `json:"gates,omitempty"`      // backend steps that are scheduling points: enter read status return
 	Locks     bool       `json:"locks,omitempty"`      // Lock() calls are scheduling points
 	Plan      string     `json:"plan,omitempty"`       // backend behaviour: "" read all & accept | "noread" never reads (returns when the reader fails) | "statuses"
+	Chunked   bool       `json:"chunked,omitempty"`    // every transfer of the scenario is chunked (BDAT)
 	ByContent bool       `json:"by_content,omitempty"` // the message's first line decides the verdict (accept…/reject…)
 	MaxBytes  int64      `json:"max_bytes,omitempty"`
 	Schedule  []string   `json:"schedule,omitempty"` // for replay
@@ -337,6 +338,11 @@ func (w *srvWorld) Finish(x *h.Exec) *h.Finding {
 	// clears it while the command loop may be between two statements of a handler; the handler then
 	// dereferences a nil session, which is recovered (421, connection closed). C20's statement does not
 	// speak about it, and which side wins is decided below the explorer's scheduling points.
+	// chunked deliveries are joined before the session is reset or logged out (DATA deliveries run in
+	// the command loop itself and cannot be; so this is only judged for scenarios whose transfers are all chunked)
+	if sc.Chunked && len(w.be.Overlaps) > 0 {
+		return h.F("c20-callbacks-overlap", "%s: %s", desc, strings.Join(w.be.Overlaps, "; "))
+	}
 	// every session logged out exactly once
 	if f := sessionOracleMulti(w.be.Trace()); f != nil {
 		f.What = desc + ": " + f.What
@@ -395,8 +401,9 @@ func c20Scenarios(tier string) []SrvScenario {
 		if len(next) > 1 {
 			name = "RSET+next-transaction"
 		}
-		out = append(out, SrvScenario{Name: "F1-bdat-slow-" + name, Accepts: []string{"conn"}, Clients: [][]string{append([]string{chunk}, next...)}, Admin: []string{"close"}, Gates: []string{"read", "return"}})
-		out = append(out, SrvScenario{Name: "F1-bdat-noread-" + name, Accepts: []string{"conn"}, Clients: [][]string{append([]string{chunk}, next...)}, Admin: []string{"close"}, Gates: []string{"return"}, Plan: "noread"})
+		chunked := len(next) == 1
+		out = append(out, SrvScenario{Name: "F1-bdat-slow-" + name, Accepts: []string{"conn"}, Clients: [][]string{append([]string{chunk}, next...)}, Admin: []string{"close"}, Gates: []string{"read", "return"}, Chunked: chunked})
+		out = append(out, SrvScenario{Name: "F1-bdat-noread-" + name, Accepts: []string{"conn"}, Clients: [][]string{append([]string{chunk}, next...)}, Admin: []string{"close"}, Gates: []string{"return"}, Plan: "noread", Chunked: chunked})
 	}
 	// F2: LMTP DATA, slow per-recipient backend, Close / disconnect
 	lm := "LHLO c.example\r\nMAIL FROM:<ok@a.example>\r\nRCPT TO:<ok1@b.example>\r\nRCPT TO:<ok2@b.example>\r\n"
@@ -408,7 +415,7 @@ func c20Scenarios(tier string) []SrvScenario {
 	out = append(out, SrvScenario{Name: "F3-shutdown-1conn-cancel", Accepts: []string{"conn"}, Clients: [][]string{{"EHLO c.example\r\n", "<EOF>"}}, Admin: []string{"shutdown", "cancel", "shutdown2"}})
 	out = append(out, SrvScenario{Name: "F3-shutdown-2conns", Accepts: []string{"conn", "conn"}, Clients: [][]string{{"EHLO c1.example\r\n", "QUIT\r\n"}, {"EHLO c2.example\r\n", "<EOF>"}}, Admin: []string{"shutdown", "close2"}})
 	out = append(out, SrvScenario{Name: "F3-close-then-shutdown", Accepts: []string{"conn"}, Clients: [][]string{{"EHLO c.example\r\n", "NOOP\r\n"}}, Admin: []string{"close", "shutdown2", "close2"}})
-	out = append(out, SrvScenario{Name: "F3-shutdown-mid-bdat", Accepts: []string{"conn"}, Clients: [][]string{{chunk, "BDAT 3 LAST\r\nabc", "QUIT\r\n"}}, Admin: []string{"shutdown", "cancel"}, Gates: []string{"return"}})
+	out = append(out, SrvScenario{Name: "F3-shutdown-mid-bdat", Accepts: []string{"conn"}, Clients: [][]string{{chunk, "BDAT 3 LAST\r\nabc", "QUIT\r\n"}}, Admin: []string{"shutdown", "cancel"}, Gates: []string{"return"}, Chunked: true})
 	// F4: all sequences of Accept answers
 	maxLen := 4
 	if tier == "thorough" {
